@@ -354,6 +354,77 @@ func c17Mode(args []string) {
 			}
 		}
 	}
+	// rules accumulate, directed: two rules for the same style property (or the same attribute) in every pair of scopes and with
+	// every pair of matchers; what the first rule alone keeps, both together keep
+	{
+		scopes := []func(o *Op){
+			func(o *Op) { o.Scope = "G" },
+			func(o *Op) { o.Scope, o.ScopeEls = "E", []string{"p"} },
+			func(o *Op) { o.Scope, o.ScopeRe = "M", `^p$` },
+		}
+		smatch := []func(o *Op){
+			func(o *Op) {},
+			func(o *Op) { o.Enum = []string{"red"} },
+			func(o *Op) { o.Enum = []string{"blue", "left"} },
+			func(o *Op) { o.Re = `^#[0-9a-f]+$` },
+			func(o *Op) { o.Handler = "hasred" },
+		}
+		amatch := []func(o *Op){
+			func(o *Op) {},
+			func(o *Op) { o.Re = `^[a-z]+$` },
+			func(o *Op) { o.Re = `^[0-9]+$` },
+		}
+		vals := []string{"red", "blue", "#fff", "left", "12", "darkred"}
+		for s1 := range scopes {
+			for s2 := range scopes {
+				if s1 == 2 && s2 == 1 {
+					continue // a rule on the named element hides the pattern rule (documented behaviour, F11)
+				}
+				for kind := 0; kind < 2; kind++ {
+					ms := smatch
+					if kind == 1 {
+						ms = amatch
+					}
+					for m1 := range ms {
+						for m2 := range ms {
+							o1, o2 := Op{Kind: "styles", Names: []string{"color"}}, Op{Kind: "styles", Names: []string{"COLOR"}}
+							if kind == 1 {
+								o1, o2 = Op{Kind: "attrs", Names: []string{"title"}}, Op{Kind: "attrs", Names: []string{"Title"}}
+							}
+							ms[m1](&o1)
+							ms[m2](&o2)
+							scopes[s1](&o1)
+							scopes[s2](&o2)
+							base := &PolicySpec{Ops: []Op{{Kind: "elements", Names: []string{"p"}}, {Kind: "attrs", Names: []string{"id"}, Scope: "G"}, o1}}
+							more := &PolicySpec{Ops: append(append([]Op{}, base.Ops...), o2)}
+							if (s1+s2+m1+m2)%2 == 1 {
+								more = &PolicySpec{Ops: []Op{base.Ops[0], base.Ops[1], o2, o1}}
+							}
+							pa, pb := base.buildGo(), more.buildGo()
+							for _, v := range vals {
+								doc := `<p id="k" style="color: ` + v + `">t`
+								keep := `color: ` + v
+								if kind == 1 {
+									doc = `<p id="k" title="` + v + `">t`
+									keep = `title="` + v + `"`
+								}
+								sum.Evaluations++
+								oa, ob := pa.Sanitize(doc), pb.Sanitize(doc)
+								if strings.Contains(oa, keep) {
+									distinct[oa+fmt.Sprint(s1, s2, m1, m2)] = true
+									if !strings.Contains(ob, keep) && len(sum.OracleFails) < 12 {
+										sum.OracleFails = append(sum.OracleFails, map[string]any{"kind": "rule-replaces", "clause": "one more rule-adding builder call takes away what the policy kept before", "lost": keep,
+											"policy": base, "added_rule": o2, "input_hex": hexOf(doc), "input_text": doc, "output": oa, "other": ob})
+									}
+								}
+							}
+						}
+					}
+				}
+			}
+		}
+		sum.Distribution["directed-accumulation-pairs"] = 8 * (len(smatch)*len(smatch) + len(amatch)*len(amatch))
+	}
 	// rules accumulate: one more attribute or style rule never takes away what the policy kept before.  (Two lookups of the
 	// implementation are "explicit entry, else patterns": a rule on a named element hides the pattern rules for that element, so
 	// a rule on named elements is only added to policies without pattern-scoped rules of that kind; and the first style rule that
